@@ -213,6 +213,26 @@ def run(ck, facts, tier, only=None):
     except Unsupported as e:
         ck.fail(r3, "parse_cals", "rule could not be established (%s)" % e, where)
 
+    # ---------------- R06.5 the Python-facing equality is the core equality
+    r5 = ck.rule("R06.5", "Python-facing __eq__ of Cal, UnionCal and NamedCal: for every kind of right operand the answer is the core `==` of the two calendars "
+                          "(the behavioural equality judged by R06.4) — no shortcut on names, kinds or identity", floor=9)
+    core_eq = lambda ev, vals, e: Sym("core_eq", *sorted([vkey(vals[0]), vkey(vals[1])], key=repr))
+    hk_eq = dict(hk, **{"calendars::calendar::Cal as std::cmp::PartialEq>::eq": core_eq, "as std::cmp::PartialEq<T>>::eq": core_eq,
+                        "as std::cmp::PartialEq<calendars::calendar::UnionCal>>::eq": core_eq, "as std::cmp::PartialEq<calendars::calendar::NamedCal>>::eq": core_eq})
+    for ty in ("Cal", "UnionCal", "NamedCal"):
+        fn = "calendars::calendar_py::<impl calendars::calendar::%s>::__eq__" % ty
+        r = facts.fn(fn)
+        where = "%s:%d" % (r["file"], r["line"]) if r else None
+        for kind in ("Cal", "UnionCal", "NamedCal"):
+            key = "%s::__eq__[%s]" % (ty, kind)
+            me, oth = Sym("self", ty), Sym("other", kind)
+            try:
+                got = cel.Ev(facts, hooks=hk_eq).apply_fn(fn, [me, Sym("ctor", kind, oth)], 0)
+                want = [vkey(Sym("core_eq", *sorted([vkey(me), vkey(oth)], key=repr))), vkey(cel.eq_sym(me, oth))]
+                ck.check(r5, key, vkey(got) in want, "%s.__eq__ on a %s is not the core `==` of the two calendars" % (ty, kind), where, detail=cel.vfmt(got)[:300], sample="*self == c")
+            except Unsupported as e:
+                ck.fail(r5, key, "rule could not be established (%s)" % e, where)
+
     # ---------------- R06.4 behavioural equality
     r4 = ck.rule("R06.4", "the behavioural PartialEq impls quantify over every calendar day of [1970-01-01, 2200-12-31] and require both is_bus_day agreement and "
                           "is_settlement agreement between self and other on the same date; NamedCal and Cal==NamedCal delegate to it", floor=4)
